@@ -11,7 +11,7 @@ from __future__ import annotations
 import hashlib
 import random
 
-from common import hx
+from common import time_limit, hx
 
 NAMES = [b"a", b"b", b"a.b", b"a0", b"c", b"ab"]
 
@@ -201,7 +201,8 @@ class World:
 
     def run_op(self, op):
         self.ops.append(op)
-        out = self.apply(op)
+        with time_limit(10):
+            out = self.apply(op)
         self.outs.append(out)
         return out
 
